@@ -45,6 +45,8 @@ type G struct {
 	Rnd   *rand.Rand
 	Tier  string
 	sampleRnd *rand.Rand
+	// fnFilter, when set, drops emitted cases of other functions (a generator reused by another property)
+	fnFilter map[string]bool
 	prop  *Property
 	out   *bufio.Writer
 	stats *Stats
@@ -139,6 +141,9 @@ func sanitize(s string) string {
 
 // Emit executes one case and records it.
 func (g *G) Emit(fn string, args ...string) {
+	if g.fnFilter != nil && !g.fnFilter[fn] {
+		return
+	}
 	e, ok := g.prop.Exec[fn]
 	if !ok {
 		panic("no executor for " + fn)
